@@ -7,6 +7,8 @@ other than 0 on a correct variant is a false alarm of the machinery (or a bug in
 to be decided by reading the replay)."""
 import glob, json, os, re, shutil, subprocess, sys, time
 VERIF = os.path.dirname(os.path.dirname(os.path.abspath(__file__)))
+# evidence written while /repo is modified must never land in /verif/evidence
+os.environ["IPT_EVIDENCE_DIR"] = os.path.join(VERIF, "build", "evidence-scratch")
 def sh(c, timeout=7200, cwd=None):
     r = subprocess.run(c, shell=True, stdout=subprocess.PIPE, stderr=subprocess.STDOUT, text=True, timeout=timeout, cwd=cwd)
     return r.returncode, r.stdout
